@@ -173,7 +173,10 @@ class Trajectory(Container):
             raise ValueError(
                 'Trajectory must have a flight_time field for interpolation'
             )
-        orig_time = self._data['flight_time']
+        # Only the first `_size` entries of the pointwise buffers are valid
+        # (a trajectory built by appending points has spare capacity).
+        npts = self._size
+        orig_time = self._data['flight_time'][:npts]
 
         new_traj = Trajectory(len(new_time), fieldsets=list(self._fieldsets))
         for name, field in self._data_dictionary.items():
@@ -187,7 +190,7 @@ class Trajectory(Container):
                         new_species_values[sp] = np.interp(
                             new_time,
                             orig_time,
-                            self._data[name][sp],
+                            self._data[name][sp][:npts],
                             left=np.nan,
                             right=np.nan,
                         )
@@ -197,7 +200,7 @@ class Trajectory(Container):
                     new_traj._data[name] = np.interp(
                         new_time,
                         orig_time,
-                        self._data[name],
+                        self._data[name][:npts],
                         left=np.nan,
                         right=np.nan,
                     )
